@@ -32,6 +32,7 @@ CONSTANTS
   LoadUnderLock = TRUE
   AbsentPurge = FALSE
   Reapplies = TRUE
+  ClientGones = TRUE
   Ghost = TRUE
   GenDepth = 60
 INVARIANT Emit
